@@ -54,6 +54,10 @@ def build(kind, wd):
         return nn.Sequential(nn.Linear(16, 16), nn.ReLU(), nn.Linear(16, 16), nn.LayerNorm(16), nn.Linear(16, 8)).to(wd), (4, 16)
     if kind == "chain_direct":  # quantized outputs feed the next quantized module directly
         return nn.Sequential(nn.Linear(16, 16), nn.Linear(16, 8)).to(wd), (4, 16)
+    if kind == "attention":  # products of quantized activations and transposes between the layers, a float residual
+        from qv import lifecycle
+
+        return lifecycle.Attention(16).to(wd), (2, 5, 16)
     raise KeyError(kind)
 
 
@@ -213,7 +217,7 @@ def run(ctx):
         for i in range(n):
             wd = DT[int(rng.integers(3))]
             aq = AQ[int(rng.integers(3))]
-            kind = ["linear", "conv", "layernorm", "chain", "chain_direct"][int(rng.integers(5))]
+            kind = ["linear", "conv", "layernorm", "chain", "chain_direct", "attention"][int(rng.integers(6))]
             nctx = int(rng.choice([1, 1, 2, 3]))
             moms = [float(MOM[rng.integers(len(MOM))]) if rng.random() < 0.8 else float(rng.uniform(0, 0.999))
                     for _ in range(nctx)]
@@ -241,10 +245,12 @@ def run(ctx):
                         with oq.Calibration(momentum=moms[ci], streamline=streamline):
                             rec.momentum = moms[ci]
                             for b in range(nb[ci]):
-                                mag = float(np.exp(r.uniform(np.log(1e-3), np.log(1e3))))
+                                # attention squares its input magnitude (q.k^T): keep the float model far from float16's
+                                # overflow, which is no quantization matter
+                                mag = float(np.exp(r.uniform(np.log(1e-3), np.log(1e3 if kind != "attention" else 8.0))))
                                 x = torch.from_numpy(r.standard_normal(shape)).to(F64)
                                 x = x / x.abs().max() * mag
-                                if r.random() < 0.12:
+                                if r.random() < 0.12 and kind != "attention":
                                     x = x / x.abs().max() * qmax_of(aq) if qmax_of(aq) < 1e3 else x  # range == qmax -> scale 1.0
                                     mag = float(x.abs().max())
                                 x = x.to(wd)
